@@ -29,6 +29,7 @@ import (
 	mwdb "massnet.org/mass/poc/wallet/db"
 	ldb "massnet.org/mass/poc/wallet/db/ldb"
 	"massnet.org/mass/poc/wallet/keystore/snacl"
+	"massnet.org/mass/zz_verif/faultdb"
 	"massnet.org/mass/zz_verif/vk"
 )
 
@@ -371,8 +372,11 @@ type wInst struct {
 	stor  storage.Storage
 	dir   string
 	store *ldb.LevelDB
-	// wrap, if set, wraps the store handed to the manager (faultdb)
-	wrap  func(mwdb.DB) mwdb.DB
+	// wrap, if set, wraps the store handed to the manager
+	wrap func(mwdb.DB) mwdb.DB
+	// fault: hand the manager a faultdb wrapper (kept in fdb)
+	fault bool
+	fdb   *faultdb.DB
 	km    *KeystoreManagerForPoC
 	files [2][]byte
 }
@@ -380,8 +384,12 @@ type wInst struct {
 var wDirSeq int64
 
 func wOpen(pub int, useDir bool, wrap func(mwdb.DB) mwdb.DB) (*wInst, error) {
+	return wOpenF(pub, useDir, wrap, false)
+}
+
+func wOpenF(pub int, useDir bool, wrap func(mwdb.DB) mwdb.DB, fault bool) (*wInst, error) {
 	wInit()
-	in := &wInst{wrap: wrap}
+	in := &wInst{wrap: wrap, fault: fault}
 	if useDir {
 		in.dir = filepath.Join(os.Getenv("VERIF_SCRATCH"), fmt.Sprintf("wdb-%d", atomic.AddInt64(&wDirSeq, 1)))
 		os.MkdirAll(filepath.Dir(in.dir), 0o755)
@@ -405,6 +413,10 @@ func wOpen(pub int, useDir bool, wrap func(mwdb.DB) mwdb.DB) (*wInst, error) {
 }
 
 func (in *wInst) db() mwdb.DB {
+	if in.fault {
+		in.fdb = faultdb.Wrap(in.store)
+		return in.fdb
+	}
 	if in.wrap != nil {
 		return in.wrap(in.store)
 	}
